@@ -298,6 +298,62 @@ theorem provider_consumer_end_to_end_django (env : Env) (i : Nat) (key ik : Str)
   rw [h1]
   exact ⟨rfl, rfl, rfl, rfl, rfl, rfl, s', h2⟩
 
+/-- **Siblings under one provider both see the data** (the shape of the defect repaired in `/repo` commit 2193c9f: a
+component directly under a page-level `{% provide %}` deleted the provided data when it finished, and its sibling's
+`inject()` raised `KeyError`).  The page `{% provide key … %}{% component a %}{% endcomponent %}{% component b %}
+{% endcomponent %}{% endprovide %}`, both components injecting `key`, no other provider alive: through the whole
+pipeline of the model of the (repaired) code both consumers see the provider's keyword arguments — the first one's
+`unregister_provide_reference` leaves the entry alive because the provider holds a reference of its own — and afterwards
+`provide_cache`, `provide_references`, `all_reference_ids` are what they were. -/
+theorem siblings_under_a_provider_both_see_the_data (env : Env) (i : Nat) (key ik : Str) (kwP : List (Str × Expr))
+    (name1 name2 : Str) (kw1 kw2 : List (Str × Expr)) (dyn1 dyn2 : Bool) (ctx ctx1 : Ctx) (w : World) (d1 d2 : CompDef)
+    (toks1 toks2 : List Tok) (st1 st2 : Nat)
+    (hmode : env.isolated = false)
+    (hkey : isIdentifier key = true) (hik : ik = injectPrefix ++ key)
+    (hctx1 : ctx1 = ctx ++ [[(ik, .provRef w.nextId)]])
+    (hr : env.raiseAt = none)
+    (hd1 : findDef env name1 = some d1) (hdyn1 : isDynName name1 = false) (hp1 : Djc.Proofs.Plain.plainL d1.template = true)
+    (hd2 : findDef env name2 = some d2) (hdyn2 : isDynName name2 = false) (hp2 : Djc.Proofs.Plain.plainL d2.template = true)
+    (hsteps0 : ¬ w.steps ≥ env.maxSteps) (hsteps1 : ¬ w.steps + 1 ≥ env.maxSteps) (hsteps2 : ¬ st1 ≥ env.maxSteps)
+    (hgcd : w.gcds + 1 < env.maxInst)
+    (hext : isExtracting ctx1 = false)
+    (hpar : ∀ p, ctxGet ctx1 compKey ≠ some (.compRef p))
+    (hpc : w.provideCache = []) (hpr : w.provideRefs = [])
+    (hids : provIdsOf ctx1 = [w.nextId])
+    (hinj1 : Djc.Proofs.Inject.injectsFrom ctx1 w.nextId d1.data) (hinj2 : Djc.Proofs.Inject.injectsFrom ctx1 w.nextId d2.data)
+    (hf : ∀ k, w.nextId + 1 ≤ k → alGet k w.ctxCache = none ∧ alGet k w.rendererCache = none ∧ alGet k w.childAttrs = none ∧
+      w.allRefIds.contains k = false)
+    (hc1 : Djc.Proofs.Plain.ctxFree (Djc.Proofs.Inject.leafCtxI ctx1 (w.nextId + 1) (evalKwargs ctx1 kw1) (evalKwargs ctx kwP) d1) = true)
+    (hok1 : Djc.Proofs.Plain.pNodes env.maxSteps (i + 2) d1.template
+      (Djc.Proofs.Inject.leafCtxI ctx1 (w.nextId + 1) (evalKwargs ctx1 kw1) (evalKwargs ctx kwP) d1) (w.steps + 2) = (.ok toks1, st1))
+    (hc2 : Djc.Proofs.Plain.ctxFree (Djc.Proofs.Inject.leafCtxI ctx1 (w.nextId + 2) (evalKwargs ctx1 kw2) (evalKwargs ctx kwP) d2) = true)
+    (hok2 : Djc.Proofs.Plain.pNodes env.maxSteps (i + 1) d2.template
+      (Djc.Proofs.Inject.leafCtxI ctx1 (w.nextId + 2) (evalKwargs ctx1 kw2) (evalKwargs ctx kwP) d2) (st1 + 1) = (.ok toks2, st2)) :
+    let r := (renderNode env (i + 9) (.provide key kwP [.comp name1 kw1 false dyn1 [], .comp name2 kw2 false dyn2 []]) ctx).run.run w
+    r.1 = .ok ((.marker name1 (w.nextId + 1) :: addRootAttrs [idAttr (w.nextId + 1)] toks1) ++
+               ((.marker name2 (w.nextId + 2) :: addRootAttrs [idAttr (w.nextId + 2)] toks2) ++ [])) ∧
+      r.2.provideCache = [] ∧ r.2.provideRefs = [] ∧ r.2.allRefIds = w.allRefIds := by
+  have hl : (false || env.isolated) = false := by rw [hmode]; rfl
+  have hW : ∃ W : World, W = holdSelfW w.nextId ({ w with steps := w.steps + 1, nextId := w.nextId + 1, provideCache := alSet w.nextId (evalKwargs ctx kwP) w.provideCache } : World) := ⟨_, rfl⟩
+  obtain ⟨W, hWdef⟩ := hW
+  have hW1 : W.provideCache = [(w.nextId, evalKwargs ctx kwP)] := by rw [hWdef]; simp [holdSelfW, hpc, alSet]
+  have hW2 : W.provideRefs = [(w.nextId, [w.nextId])] := by rw [hWdef]; simp [holdSelfW, hpr, alGet, alSet]
+  have hW3 : W.nextId = w.nextId + 1 := by rw [hWdef]; rfl
+  have hW4 : W.steps = w.steps + 1 := by rw [hWdef]; rfl
+  have hW5 : W.gcds = w.gcds := by rw [hWdef]; rfl
+  have hW6 : W.ctxCache = w.ctxCache ∧ W.rendererCache = w.rendererCache ∧ W.childAttrs = w.childAttrs ∧ W.allRefIds = w.allRefIds := by
+    rw [hWdef]; exact ⟨rfl, rfl, rfl, rfl⟩
+  have hbody := Djc.Proofs.Inject.two_consumers_under_provider env i name1 name2 kw1 kw2 false dyn1 false dyn2 ctx1 ctx1 ctx1 W d1 d2
+    w.nextId (evalKwargs ctx kwP) toks1 toks2 st1 st2 (by rw [hl]; rfl) (by rw [hl]; rfl) hr hd1 hdyn1 hp1 hd2 hdyn2 hp2
+    (by rw [hW4]; exact hsteps1) hsteps2 (by rw [hW5]; exact hgcd) hext hpar hpar hW1 hW2 (by rw [hW3]; omega) (by rw [hW3]; omega)
+    hids (by exact hinj1) hids (by exact hinj2)
+    (by intro k hk; rw [hW3] at hk; rw [hW6.1, hW6.2.1, hW6.2.2.1, hW6.2.2.2]; exact hf k hk)
+    (by rw [hW3]; exact hc1) (by rw [hW3, hW4]; exact hok1) (by rw [hW3]; exact hc2) (by rw [hW3]; exact hok2)
+  have hwrap := Djc.Proofs.Inject.provide_wrap env (i + 8) key ik kwP _ ctx ctx1 w W _ _ hkey hik hctx1 hsteps0 hWdef hbody hW1 hW2
+  simp only
+  rw [hwrap]
+  exact ⟨by rw [hW3], rfl, rfl, hW6.2.2.2⟩
+
 section InjectExample
 deriving instance DecidableEq for Err
 deriving instance DecidableEq for Except
@@ -336,6 +392,35 @@ example :
     (by decide +kernel) (by decide +kernel) (by decide +kernel) hpar rfl rfl (by decide +kernel) hinj
     (by simp [cDef, Djc.Proofs.Inject.injectsKey]) rfl rfl rfl rfl (by decide +kernel) (by decide +kernel)
     rfl rfl rfl (by decide +kernel) (by decide +kernel)).1
+  rw [h]
+  decide +kernel
+/-- two consumers side by side: both print the provider's `a` -/
+example :
+    ((renderNode cEnv 17 (.provide "k".toList [("a".toList, .lit "A".toList)]
+        [.comp "c0".toList [] false false [], .comp "c0".toList [] false false []]) cCtx).run.run {}).1 =
+      .ok [.marker "c0".toList 2, .opn "b".toList [idAttr 2], .text "A".toList, .cls "b".toList,
+           .marker "c0".toList 3, .opn "b".toList [idAttr 3], .text "A".toList, .cls "b".toList] := by
+  have h0 : (ctxGet cCtx1 compKey).isNone = true := by decide +kernel
+  have hpar : ∀ p, ctxGet cCtx1 compKey ≠ some (.compRef p) := by
+    intro p hp; rw [hp] at h0; cases h0
+  have hfd : findDef cEnv "c0".toList = some cDef := by
+    simp [findDef, cEnv, cDef]
+  have hinj1 : (match ctxGet cCtx1 (injectPrefix ++ "k".toList) with | some (.provRef p) => p == 1 | _ => false) = true := by
+    decide +kernel
+  have hinj : Djc.Proofs.Inject.injectsFrom cCtx1 1 cDef.data := by
+    simp only [cDef, Djc.Proofs.Inject.injectsFrom, and_true]
+    cases hg : ctxGet cCtx1 (injectPrefix ++ "k".toList) with
+    | none => rw [hg] at hinj1; cases hinj1
+    | some v =>
+      rw [hg] at hinj1
+      cases v <;> first | (simp at hinj1; subst hinj1; rfl) | cases hinj1
+  have h := (siblings_under_a_provider_both_see_the_data cEnv 8 "k".toList (injectPrefix ++ "k".toList) [("a".toList, .lit "A".toList)]
+    "c0".toList "c0".toList [] [] false false cCtx cCtx1 {} cDef cDef
+    [.opn "b".toList [], .text "A".toList, .cls "b".toList] [.opn "b".toList [], .text "A".toList, .cls "b".toList] 4 7
+    rfl (by decide +kernel) rfl rfl rfl hfd (by decide +kernel) (by decide +kernel) hfd (by decide +kernel) (by decide +kernel)
+    (by decide +kernel) (by decide +kernel) (by decide +kernel) (by decide +kernel) (by decide +kernel) hpar rfl rfl
+    (by decide +kernel) hinj hinj (by intro k _; exact ⟨rfl, rfl, rfl, rfl⟩)
+    (by decide +kernel) (by decide +kernel) (by decide +kernel) (by decide +kernel)).1
   rw [h]
   decide +kernel
 end InjectExample
